@@ -17,6 +17,14 @@ CLAIMED = {
          "Samples the continuous domain densely where the algorithm switches (2*min threshold +-8 ulps, underflowing squares, subnormal norms, graded magnitudes) for Vec2/3/4 x float/double and all six normalisation spellings; a pass means no counter-example among 1.5e7 (quick) / 2.4e8 (thorough) generated vectors, it is not a proof.",
          "Bounds: length within 6 ulps, components within 8 ulps, |n| within 4 eps (measured worst on the unchanged tree 2.7 / 3.5 ulps). Errors smaller than the bounds are invisible. Trusts libquadmath sqrtq.",
          "DESIGN.md section 5 C08"),
+ "C02": ("exhaustive differential testing: 20 build configurations of half.h (g++/clang++ C++14/17/20, gcc/clang C99/C11, table / IMATH_HALF_NO_LOOKUP_TABLE / cmake -DIMATH_HALF_USE_LOOKUP_TABLE=OFF, -mf16c) compiled from the working tree into separate shared objects and compared output-for-output on all 2^16 half and all 2^32 float inputs; generator program re-run and diffed against the shipped table",
+         "Each configuration is the same shim compiled under its own flags with hidden visibility; bit equality with the reference configuration is demanded on every input (F16C: NaN payload free, NaN-ness and sign fixed). Quick: 7 configuration/spelling pairs covering every source path on all 2^32 floats, the remaining 25 on 2^30 each; thorough: all 32 on 2^32. toFloat.cpp is compiled and run, its 65538 tokens compared with toFloat.h and the in-memory table.",
+         "Only the compilers, language modes and CPU present in this sandbox are covered (x86-64 with F16C; no MSVC/ARM paths); if the CPU lacked F16C those configurations would be recorded as skipped. Trusts dlopen/-Bsymbolic isolation between configurations.",
+         "DESIGN.md section 5 C02"),
+ "C04": ("typed cross-product enumeration (34 aggregate types as separate sub-checks) x generated operator/spelling kind x class-structured operands; oracle = scalar expression per slot evaluated in the element type, bitwise comparison; layout via addresses of named members; text via independent tokenisation",
+         "Every (type, element type) combination is instantiated; the operator kind (14 kinds incl. binary/compound/unary/negate/scalar-left/scalar-right/==/!=/equalWith*/layout/constructors+setValue+getValue/interop/text) is generated and its histogram reported, every slot of every result compared. A pass means no counter-example in 9e6 (quick) / 1.7e8 (thorough) generated cases.",
+         "Integer operands are restricted to the range where the scalar C++ operation is defined (no signed overflow, no division by zero) - outside it the scalar oracle itself is undefined. unsigned char text output is excluded as the statement says. Converting constructors are exercised with one other element type per T.",
+         "DESIGN.md section 5 C04"),
 }
 PENDING_REASON = "check under construction in this session (harness not yet committed); will be claimed once it passes on the unchanged tree"
 def main():
